@@ -324,6 +324,19 @@ func (st *Schema) findIndex(cols []IndexColumn) *SchemaIndex {
 }
 
 // sets the PK key (for non-rowid tables). Deletes any duplicate indexes.
+// ignoreDesc makes every key column ascending, as in files written with a
+// schema format before 4.
+func (st *Schema) ignoreDesc() {
+	for i := range st.PK {
+		st.PK[i].SortOrder = sql.Asc
+	}
+	for _, ind := range st.Indexes {
+		for i := range ind.Columns {
+			ind.Columns[i].SortOrder = sql.Asc
+		}
+	}
+}
+
 func (st *Schema) setPK(cols []IndexColumn) {
 	st.PK = cols
 	for i, ind := range st.Indexes {
